@@ -115,7 +115,9 @@ func (f *Frame) execCall(st *State, x *ssa.Call) Value {
 		}
 		f.callAsserts(st, x, cc.Method.Name())
 		vc.havocAll(st, "interface method call "+cc.Method.Name()+" without contract in "+f.fn.Name())
-		return fresh()
+		r := fresh()
+		f.postAssumesNoContract(st, x, cc.Method.Name(), r)
+		return r
 	}
 	target := cc.Value
 	// a call through a package-level function variable that is initialised once with a
@@ -148,6 +150,8 @@ func (f *Frame) execCall(st *State, x *ssa.Call) Value {
 			}
 			return f.contractCall(st, x, c, callee, args, ptypes, callee.Signature.Results(), callee.Name())
 		}
+		// call-site assertions also apply to external and uncontracted callees
+		f.callAsserts(st, x, callee.Name())
 		if ext := lookupExternal(callee); ext != nil {
 			return f.externalCall(st, x, callee, ext, args)
 		}
@@ -636,6 +640,37 @@ func (f *Frame) contractCall(st *State, x *ssa.Call, c *Contract, callee *ssa.Fu
 		return rvals[0]
 	}
 	return VTuple{rvals}
+}
+
+// postAssumesNoContract: "postassume m: e" also applies to calls that have no contract (interface
+// methods implemented by user code); result0, result1, .. name the components of the result.
+func (f *Frame) postAssumesNoContract(st *State, x *ssa.Call, name string, r Value) {
+	if f.c == nil || !f.top {
+		return
+	}
+	vc := f.vc
+	for _, ca := range f.c.PostAssumes[name] {
+		actx := f.newCtx(st, f.entry)
+		actx.at = x.Block()
+		actx.atEnd = true
+		if tu, ok := x.Type().(*types.Tuple); ok {
+			if vt, ok := r.(VTuple); ok {
+				for i := 0; i < tu.Len() && i < len(vt.Elems); i++ {
+					actx.names[fmt.Sprintf("result%d", i)] = CV{vt.Elems[i], tu.At(i).Type()}
+				}
+			}
+		} else {
+			actx.names["result"] = CV{r, x.Type()}
+			actx.names["result0"] = CV{r, x.Type()}
+		}
+		g, err := actx.evalBoolSafe(ca.E)
+		if err != nil {
+			vc.note("post-call assumption cannot be evaluated: %v", err)
+			continue
+		}
+		st.pc = vc.B.And(st.pc, g)
+		vc.note("ASSUMED after the call to %s in %s: %s", name, f.c.Key, ca.Text)
+	}
 }
 
 func calleeFrameFor(calleeFrame, caller *Frame) *Frame { return calleeFrame }
